@@ -13,9 +13,9 @@ CFG = dict(
          "keys; overwrites, logical deletes, expirations in 2000 and 2100, non-indexable entries, empty values, transaction metadata) is "
          "committed in 1..4 batches; between batches: flush (with/without cleanup and sync), compaction, snapshots kept open, store "
          "close+reopen, index close+re-init with a backlog. Two schedules: `det` (2 of 3 runs) commits each batch while the indexers are "
-         "paused (verif hook) or closed and uses adaptive bulks, so the bulk partition is known and the INDEXER MODEL is evaluated with it "
-         "(CModel, with the repairs the probes found present); `free` (1 of 3) lets indexers run concurrently with the commits and compares "
-         "with the SPECIFICATION (CSpec) on the configurations not hit by a known defect. After WaitForIndexingUpto, per index: Get, "
+         "paused (verif hook) or closed and uses adaptive bulks, so the bulk partition is known and the INDEXER MODEL (all_fixed = the code of "
+         "/repo) is evaluated with it (CModel); `free` (1 of 3) lets indexers run concurrently with the commits and compares with the "
+         "SPECIFICATION (CSpec), every configuration and bulk size. After WaitForIndexingUpto, per index: Get, "
          "GetBetween, History (full listings both directions, random offset/limit incl. 0 and out of range), Snapshot.History, GetWithPrefix "
          "(with/without neq), key readers (prefix, seek/end with inclusiveness, both directions, IgnoreDeleted/IgnoreExpired combinations, "
          "offsets), ReadBetween, each on the store or on a snapshot; every result is compared in Go with a re-implementation of the "
@@ -35,11 +35,11 @@ CFG = dict(
         "source key of every indexable entry under the same source prefix (the SQL engine's primary/secondary pairing); an index that is its "
         "own source index has no target mapper (spec_ok)",
         "ranged reads below the oldest version of a key and source-index lookups of a lagging injective index rely on the tbtree repair e30fc04 (lastUpdateBetween, C10); probe D5 of the harness replays the stall that defect caused (known_findings/C04.json, fixed)",
-        "verif hook /repo/embedded/store/verif_hooks_c04.go (build tag verif, add-only): pause/resume of the indexers, valueRefFrom and "
+        "verif hook /repo/embedded/store/verif_hooks_c04.go (commit 2614796, build tag verif, add-only): pause/resume of the indexers, valueRefFrom and "
         "serializeIndexableEntry exposed",
-        "the full theorems C04_index_equals_history, C04_get_is_latest_live, C04_history_*, C04_scan_*, C04_reads_are_spec, "
-        "C04_bulk_partition_irrelevant are about the model with the proposed repairs (all_fixed); the code as it stands is covered by the "
-        "*_refuted and *_partial theorems; the harness probes which repairs are present and ties the corresponding model",
+        "the theorems are about the model all_fixed = indexer.go / key_reader.go after d549efb, e3b45a5, 9ae1e79, 89781aa; the directed replays of the "
+        "six repaired defects (bulk 8 / 40 transactions, injective tombstones in a bulk, metadata tombstone, Snapshot.History revisions, crash "
+        "probe in a child process, lagging secondary index) run on every check, a recurrence is a violation (known_findings/C04.json: fixed)",
     ],
     assumptions=[
         "histories are well formed (transaction ids 1,2,3,...) and valid (value length < 2^32, offsets < 2^64, 32-byte digests, metadata the "
